@@ -850,10 +850,66 @@ impl Property for C14 {
                 o.fail = Some(f);
             }
         }
+        // a context that is dropped without run() ever having been called, and one dropped in
+        // the middle of connect(): requests already submitted must fail, not hang
+        if o.fail.is_none() {
+            if let Some(f) = drop_idle_context(case.events.len() % 2 == 0) {
+                o.fail = Some(f);
+            }
+            o.class("drop-of-a-context-that-never-ran");
+        }
         o.classes.sort();
         o.classes.dedup();
         o
     }
+}
+
+fn drop_idle_context(during_connect: bool) -> Option<Failure> {
+    use crate::world::World;
+    let plan = WritePlan::default();
+    let mut w = World::new();
+    w.tick();
+    w.start_connect(ConnectSpec::default());
+    settle(&mut w, &plan, false);
+    if !during_connect {
+        w.reader.feed(rc::encode(&rc::Packet::Connack(rc::Connack::default()), &rc::Form::canonical()));
+        settle(&mut w, &plan, false);
+    }
+    let specs = vec![
+        OpSpec::Publish(tagged_publish(0, 0)),
+        OpSpec::Publish(tagged_publish(1, 1)),
+        OpSpec::Publish(tagged_publish(2, 2)),
+        OpSpec::Subscribe(tagged_subscribe(3, 1)),
+        OpSpec::Unsubscribe(tagged_unsubscribe(4, 1)),
+        OpSpec::Ping,
+        OpSpec::Disconnect(DisconnectSpec::default()),
+    ];
+    let mut ops = vec![];
+    for sp in specs {
+        let i = w.start_op(0, sp).unwrap();
+        w.poll_op(i); // submitted: the request sits in the queue
+        ops.push(i);
+    }
+    w.tick();
+    w.drop_ctx();
+    settle(&mut w, &plan, false);
+    if let Some(p) = first_panic(&w) {
+        return Some(Failure { sig: format!("PANIC/{}", panic_sig(&p)), msg: p });
+    }
+    for i in ops {
+        if w.ops[i].res != Some(OpRes::Err(ErrSum::ContextExited)) {
+            return Some(Failure {
+                sig: format!("C14/queued-operation-after-idle-context-drop/{}", w.ops[i].spec.kind()),
+                msg: format!(
+                    "context dropped {} with the request queued: {} ended with {:?}, want Err(ContextExited)",
+                    if during_connect { "in the middle of connect()" } else { "before run() was ever called" },
+                    w.ops[i].spec.kind(),
+                    w.ops[i].res
+                ),
+            });
+        }
+    }
+    None
 }
 
 /// like `run`, but the writer stops accepting bytes right before the last three events
